@@ -16,6 +16,7 @@ git -C "$WT" apply "$D/patch.diff" || { echo "BROKEN patch does not apply"; exit
 mkdir -p "$WT/_out"
 VERIF_REPO=$WT VERIF_OUT=$WT/_out VERIF_SEED=$S ${VERIF_BIN:-/verif/bin/verif-check} "$P" "$T" > "$D/try_${P}_${T}_$S.log" 2>&1
 rc=$?
+cp "$WT/_out/evidence/$P.json" "$D/try_evidence_${P}_${T}_$S.json" 2>/dev/null
 case $rc in
  1) echo "DETECTED $(basename $D) by $P $T seed=$S: $(grep -m1 -A1 '^VIOLATION' $D/try_${P}_${T}_$S.log | tail -1 | cut -c1-220)";;
  0) echo "MISSED   $(basename $D) by $P $T seed=$S";;
